@@ -166,6 +166,14 @@ func init() {
 			c.checkShadow(s, "T")
 			return c.natErr(err)
 		},
+		"UT": func(c *Ctx, s *Shadow, args []Value, sig *types.Signature) Value {
+			c.noteMetaWrite(s, "UT in place")
+			if p := c.nativeCall("UT", func() { s.ids.UT(); s.twin.UT() }); p != nil {
+				panic(p)
+			}
+			c.checkShadow(s, "UT")
+			return nil
+		},
 		"Transpose": func(c *Ctx, s *Shadow, args []Value, sig *types.Signature) Value {
 			c.noteMetaWrite(s, "Transpose in place")
 			err := c.dual("Transpose", func() error { return s.ids.Transpose() }, func() error { return s.twin.Transpose() })
@@ -269,6 +277,7 @@ func init() {
 				panic(c.abort("AddScalar: symbolic leftTensor"))
 			}
 			fo := c.funcOpts(args[2])
+			fo.operands = []*Shadow{s}
 			var res *tensor.Dense
 			var err error
 			if p := c.nativeCall("AddScalar", func() { res, err = s.twin.AddScalar(b.native, left.BoolVal(), fo.native...) }); p != nil {
@@ -570,6 +579,7 @@ func (c *Ctx) registerTensorIntrinsics(tab map[string]intrinsicFn) {
 		return OptV{Kind: "WithReuse", Arg: a[0]}
 	}
 	tab[P+"AsSameType"] = func(c *Ctx, fn *ssa.Function, a []Value) Value { return OptV{Kind: "AsSameType"} }
+	tab[P+"UseUnsafe"] = func(c *Ctx, fn *ssa.Function, a []Value) Value { return OptV{Kind: "UseUnsafe"} }
 	tab[P+"New"] = func(c *Ctx, fn *ssa.Function, a []Value) Value {
 		c.E.Stubs["tensor.New"]++
 		return c.tensorNew(nil, c.valuesOf(a[0]))
